@@ -1,4 +1,5 @@
-use crate::{Comparison, LinearModel, LpSolution, MILPValue, SolverError, solve_milp_lp_problem};
+use crate::solvers::common::constant_rows_hold;
+use crate::{LinearModel, LpSolution, MILPValue, SolverError, solve_milp_lp_problem};
 use indexmap::IndexMap;
 
 /// Solves any kind of linear programming problem with the built-in MILP solver.
@@ -48,18 +49,8 @@ pub fn auto_solver(lp: &LinearModel) -> Result<LpSolution<MILPValue>, SolverErro
     if lp.domain().is_empty() {
         // Without variables every row is a constant comparison `0 <op> rhs`:
         // a row that does not hold makes the model infeasible.
-        for constraint in lp.constraints() {
-            let rhs = constraint.rhs();
-            let holds = match constraint.constraint_type() {
-                Comparison::LessOrEqual => 0.0 <= rhs,
-                Comparison::GreaterOrEqual => 0.0 >= rhs,
-                Comparison::Equal => rhs == 0.0,
-                Comparison::Less => 0.0 < rhs,
-                Comparison::Greater => 0.0 > rhs,
-            };
-            if !holds {
-                return Err(SolverError::Infeasible);
-            }
+        if !constant_rows_hold(lp) {
+            return Err(SolverError::Infeasible);
         }
         // A variable-free model still carries a constant objective (the offset).
         return Ok(LpSolution::new(
